@@ -738,7 +738,9 @@ pub fn xor(model: &mut Model, b1: VarId, b2: VarId) -> VarId {
 pub fn implies(model: &mut Model, b1: VarId, b2: VarId) {
     // b1 => b2 is equivalent to !b1 OR b2
     let not_b1 = model.bool_not(b1);
-    let _ = model.bool_or(&[not_b1, b2]);
+    let clause = model.bool_or(&[not_b1, b2]);
+    // the disjunction has to hold (bool_or only defines `clause`)
+    let _ = model.props.equals(clause, Val::ValI(1));
 }
 
 // ============================================================================
